@@ -367,6 +367,55 @@ func (t *tarRun) explore(seq []int, parent info, parentOK bool) {
 	}
 }
 
+// followUp: the accepted archive left symbolic links that really resolve
+// outside the working directory (each target is lexically inside). A second
+// Push into the same directory - a named blob, and a one-entry archive, whose
+// title passes through such a link - must not change anything outside either.
+func (t *tarRun) followUp(links []string, describe func() string) {
+	c, sb := t.c, t.sb
+	first := describe()
+	for _, l := range links {
+		for _, kt := range [][2]string{{"blob", l}, {"blob", l + "/zz"}, {"blob", l + "/d/zz"}, {"unpack", l}, {"unpack", l + "/zz"}} {
+			kind, title := kt[0], kt[1]
+			desc := ocispec.Descriptor{MediaType: "application/octet-stream", Annotations: map[string]string{ocispec.AnnotationTitle: title}}
+			blob := []byte(pwn)
+			if kind == "unpack" {
+				var tb, gz bytes.Buffer
+				tw := tar.NewWriter(&tb)
+				must(tw.WriteHeader(&tar.Header{Name: title + "/f", Typeflag: tar.TypeReg, Mode: 0644, Size: int64(len(pwn))}))
+				_, _ = tw.Write([]byte(pwn))
+				must(tw.Close())
+				zw := gzip.NewWriter(&gz)
+				_, _ = zw.Write(tb.Bytes())
+				must(zw.Close())
+				blob = gz.Bytes()
+				desc.Annotations[file.AnnotationUnpack] = "true"
+			}
+			desc.Digest = digest.FromBytes(blob)
+			desc.Size = int64(len(blob))
+			err, _ := pushOnce(sb, desc, blob, "")
+			c.Count("second_push_through_a_link_left_behind", 1)
+			c.Evals++
+			if err != nil {
+				c.Count("second_push_through_a_link_left_behind_rejected", 1)
+			}
+			pic := sb.picture()
+			if pic == sb.canon {
+				continue
+			}
+			var lines []string
+			for _, ch := range pictureChanges(sb.canon, pic) {
+				lines = append(lines, fmt.Sprintf("%s in %s: %s: %s => %s", ch.what, where(ch.path), ch.path, ch.old, ch.new))
+			}
+			what := map[string]string{"blob": "named blob", "unpack": "archive unpacked"}[kind]
+			t.violation("a later push ("+what+") writes outside the working directory through a symbolic link that an accepted archive left behind (the link's target is lexically inside, really outside)",
+				"first push: "+first+"\nsecond push into the same working directory (a new file store, default options): "+what+" with title "+fmt.Sprintf("%q", title)+" returned: "+fmt.Sprint(err)+
+					"\nchanged outside the working directory:\n"+strings.Join(lines, "\n"))
+			sb.repair()
+		}
+	}
+}
+
 func (t *tarRun) runSeq(seq []int, parent info, parentOK, judge, wantInfo bool) (error, info) {
 	c, sb := t.c, t.sb
 	sb.resetWD(t.state)
@@ -469,8 +518,9 @@ func (t *tarRun) runSeq(seq []int, parent info, parentOK, judge, wantInfo bool) 
 		}
 	}
 	if err == nil && anyLink && unchanged {
-		if n := sb.symlinksLeavingWD(); n > 0 {
-			c.Count("accepted_archives_leaving_a_symlink_that_resolves_outside_unjudged", 1)
+		if links := sb.linksLeavingWD(); len(links) > 0 {
+			c.Count("accepted_archives_leaving_a_symlink_that_resolves_outside", 1)
+			t.followUp(links, describe)
 		}
 	}
 	if last.name == "<out>" && parentOK && err == nil {
